@@ -90,7 +90,7 @@ pub struct LspServer {
     child: std::process::Child,
     stdin: std::process::ChildStdin,
     stdout: std::io::BufReader<std::process::ChildStdout>,
-    opened: bool,
+    opened_uris: Vec<usize>,
     next_id: u64,
 }
 
@@ -106,7 +106,7 @@ impl LspServer {
             .ok()?;
         let stdin = child.stdin.take()?;
         let stdout = std::io::BufReader::new(child.stdout.take()?);
-        let mut s = LspServer { child, stdin, stdout, opened: false, next_id: 1 };
+        let mut s = LspServer { child, stdin, stdout, opened_uris: vec![], next_id: 1 };
         s.send(r#"{"jsonrpc":"2.0","id":0,"method":"initialize","params":{"capabilities":{}}}"#);
         // the initialize response
         s.read_message()?;
@@ -141,18 +141,37 @@ impl LspServer {
     /// open (first time) or change the document, then ask for semantic tokens;
     /// returns (diagnostics JSON, tokens JSON) or None if the server died
     pub fn document(&mut self, text: &str) -> Option<(serde_json::Value, serde_json::Value)> {
+        self.document_at(0, text)
+    }
+    /// the documents a session may have open side by side: distinct URIs, some differing only in case or escaping
+    pub const URIS: [&'static str; 5] = ["file:///t.bas", "file:///T.BAS", "file:///dir/t.bas", "file:///c%3A/x.bas", "file:///C:/x.bas"];
+    /// semantic tokens of document `k` as the server has it now (no update)
+    pub fn tokens_of(&mut self, k: usize) -> Option<serde_json::Value> {
+        let uri = Self::URIS[k % Self::URIS.len()];
+        let id = self.next_id;
+        self.next_id += 1;
+        self.send(&format!(r#"{{"jsonrpc":"2.0","id":{},"method":"textDocument/semanticTokens/full","params":{{"textDocument":{{"uri":"{}"}}}}}}"#, id, uri));
+        loop {
+            let m = self.read_message()?;
+            if m.get("id").and_then(|x| x.as_u64()) == Some(id) {
+                return Some(m["result"]["data"].clone());
+            }
+        }
+    }
+    pub fn document_at(&mut self, k: usize, text: &str) -> Option<(serde_json::Value, serde_json::Value)> {
+        let uri = Self::URIS[k % Self::URIS.len()];
         let t = serde_json::Value::String(text.to_string()).to_string();
-        if !self.opened {
-            self.send(&format!(r#"{{"jsonrpc":"2.0","method":"textDocument/didOpen","params":{{"textDocument":{{"uri":"file:///t.bas","languageId":"abasic","version":1,"text":{}}}}}}}"#, t));
-            self.opened = true;
+        if !self.opened_uris.contains(&k) {
+            self.send(&format!(r#"{{"jsonrpc":"2.0","method":"textDocument/didOpen","params":{{"textDocument":{{"uri":"{}","languageId":"abasic","version":1,"text":{}}}}}}}"#, uri, t));
+            self.opened_uris.push(k);
         } else {
             // a notification may carry several changes; they apply in order, so the last one is the document
             let stale = if text.len() % 3 == 0 { r#"{"text":"10 PRINT \"stale\n20 GOTO 77"},"# } else { "" };
-            self.send(&format!(r#"{{"jsonrpc":"2.0","method":"textDocument/didChange","params":{{"textDocument":{{"uri":"file:///t.bas","version":2}},"contentChanges":[{}{{"text":{}}}]}}}}"#, stale, t));
+            self.send(&format!(r#"{{"jsonrpc":"2.0","method":"textDocument/didChange","params":{{"textDocument":{{"uri":"{}","version":2}},"contentChanges":[{}{{"text":{}}}]}}}}"#, uri, stale, t));
         }
         let id = self.next_id;
         self.next_id += 1;
-        self.send(&format!(r#"{{"jsonrpc":"2.0","id":{},"method":"textDocument/semanticTokens/full","params":{{"textDocument":{{"uri":"file:///t.bas"}}}}}}"#, id));
+        self.send(&format!(r#"{{"jsonrpc":"2.0","id":{},"method":"textDocument/semanticTokens/full","params":{{"textDocument":{{"uri":"{}"}}}}}}"#, id, uri));
         let mut diags = None;
         let mut toks = None;
         while diags.is_none() || toks.is_none() {
@@ -473,7 +492,35 @@ impl Session {
                 }
                 None => "bad-utf8".to_string(),
             },
-            ["lsp", rest @ ..] => {
+            // `lspq k [hex]`: the tokens of document k as the server has it now (the text is only there for the model)
+            ["lspq", k, rest @ ..] => {
+                let k: usize = k.parse().unwrap_or(0);
+                if self.lsp.is_none() {
+                    self.lsp = LspServer::start();
+                }
+                let Some(server) = self.lsp.as_mut() else { return "NO-SERVER".to_string() };
+                if !server.opened_uris.contains(&(k % LspServer::URIS.len())) && !server.opened_uris.contains(&k) {
+                    // (a shrunk case may ask before it opened) open it with the text the question carries
+                    let text = rest.first().and_then(|h| unhex(h)).unwrap_or_default();
+                    if server.document_at(k, &text).is_none() {
+                        self.lsp = None;
+                        return "PANIC:server-exited".to_string();
+                    }
+                }
+                let Some(server) = self.lsp.as_mut() else { return "NO-SERVER".to_string() };
+                match server.tokens_of(k) {
+                    None => {
+                        self.lsp = None;
+                        "PANIC:server-exited".to_string()
+                    }
+                    Some(toks) => {
+                        let ts: Vec<String> = toks.as_array().map(|a| a.chunks(5).map(|c| format!("{},{},{},{}", c[0], c[1], c[2], c[3])).collect()).unwrap_or_default();
+                        format!("S {}", ts.join(" "))
+                    }
+                }
+            }
+            ["lsp", rest @ ..] | ["lspu", _, rest @ ..] => {
+                let k: usize = if parts[0] == "lspu" { parts[1].parse().unwrap_or(0) } else { 0 };
                 let text = match rest {
                     [] => Some(String::new()),
                     [h] => unhex(h),
@@ -484,7 +531,7 @@ impl Session {
                     self.lsp = LspServer::start();
                 }
                 let Some(server) = self.lsp.as_mut() else { return "NO-SERVER".to_string() };
-                match server.document(&text) {
+                match server.document_at(k, &text) {
                     None => {
                         self.lsp = None;
                         "PANIC:server-exited".to_string()
